@@ -2,6 +2,7 @@
 import itertools
 
 from ..core import Prop, Suite
+from ..suites_chain import ChainBuild
 from ..coqlit import cbool, clist, cpair, cstr, copt
 
 COMPS = ['a', 'aa', 'n', 'xn', 'g', 'xg', 'b', 'é']
@@ -180,9 +181,17 @@ class Find(Suite):
         return d
 
 
+class InputNames(ChainBuild):
+    """whole chains: the names a dependant lists among its inputs (by name, group- or namespace-qualified, by class,
+    optional) resolve to the tasks the component-wise rule names, or construction fails - against the chain model and
+    the reference resolution"""
+    name = 'dependant_inputs'
+    aspects = ('edges',)
+
+
 class C10(Prop):
     pid = 'C10'
-    suites = [Find()]
+    suites = [Find(), InputNames()]
     trusted_base = ['UTF-8 argument: split on the ASCII separators gives the same pieces on bytes as on code points']
     assumptions = ['full names are well formed (non-empty components without ":") for the specification theorems; '
                    'the model itself is total on arbitrary text and is compared on malformed names too']
